@@ -13,7 +13,7 @@
 use calamine::verif_hooks::utils::{push_column, FTAB, FTAB_ARGC};
 #[cfg(feature = "hooks")]
 use calamine::verif_hooks::{xls as hx, xlsb as hb};
-use calamine::{HeaderRow, Ods, Reader, Xls, Xlsb, Xlsx};
+use calamine::{Data, HeaderRow, Ods, Reader, Xls, Xlsb, Xlsx};
 use std::collections::BTreeMap;
 use std::io::Cursor;
 use verif_harness::xlsbw::{BVal, DefinedName, Fmla, Framing, XlsbBook, XlsbSheet};
@@ -1207,6 +1207,23 @@ fn corpus() -> Vec<&'static str> {
         "deep xlsb 63",
         "deep xlsb 64",
         "deep xlsb 65",
+        // the last row / last column of every format carry formulas like any other (a formula just above keeps the dense
+        // range small): xls 65535 / 255 (the same file is also written as xlsb), xlsb and xlsx 1048575 / 16383, ods row
+        // 1048575; and the first row / column next to the last column / row
+        "file S=5331 N= X=0 | 0 65534 0 I 1 ; 0 65535 1 I 2 #",
+        "file S=5331 N= X=0 | 0 65534 254 I 1 ; 0 65535 255 R 0 65535 255 1 1 #",
+        "file S=5331 N= X=0 | 0 0 0 I 1 ; 0 1 255 I 2 #",
+        "file S=5331 N= X=0 | 0 0 0 I 1 ; 0 65535 1 I 2 #",
+        "file S=5331 N= X=0 | 0 1048574 0 I 1 ; 0 1048575 1 I 2 #",
+        "file S=5331 N= X=0 | 0 1048574 16382 I 1 ; 0 1048575 16383 R 0 1048575 16383 1 1 #",
+        "file S=5331 N= X=0 | 0 0 0 I 1 ; 0 1 16383 I 2 #",
+        "file S=5331,5332 N= X=0,1 | 0 1048575 0 I 1 ; 1 1048575 16383 I 2 #",
+        "xlsxf 7 | 0 1048574 0 1 41312b31 ; 0 1048575 1 0 53554d2841313a413329 # 1",
+        "xlsxf 11 | 0 1048574 16382 1 41312b31 ; 0 1048575 16383 1 584644313034383537352a32 # 1",
+        "xlsxf 13 | 0 0 0 1 312b31 ; 0 1 16383 0 4131 # 1",
+        "xlsxf 17 | 0 1048575 16383 1 58464431303438353736 # 1",
+        "odsf 1048574:_1 1:g6f663a3d5b2e41315d2b31 1:_1,f6f663a3d53554d285b2e41313a2e41335d29",
+        "odsf 1:g6f663a3d31,_1020,f6f663a3d32",
         // well-formed odds and ends
         "enc S=5331 N=4d794e616d65 X=0 | FV 0 4 3 OP 3 R 0 0 27 1 0 I 2 U- PAR N 1 0 M",
         "enc S=5331 N= X=0 | FN 1 19 0",
@@ -1522,9 +1539,23 @@ fn gen_file_case(rng: &mut Rng, wide: bool) -> FileCase {
         };
         let k = rng.range(0, 5);
         let mut used = std::collections::BTreeSet::new();
-        for _ in 0..k {
-            let r = r0 + rng.below(64) as u32;
-            let c = c0 + rng.below(32) as u32;
+        for j in 0..k {
+            let mut r = r0 + rng.below(64) as u32;
+            let mut c = c0 + rng.below(32) as u32;
+            // a window that touches an edge of the grid has its first two formula cells ON the edge half of the time:
+            // first / last row and first / last column of the format
+            if j < 2 && rng.chance(1, 2) {
+                if r0 == 0 {
+                    r = 0;
+                } else if r0 == max_row - 63 {
+                    r = max_row;
+                }
+                if c0 == 0 {
+                    c = 0;
+                } else if c0 == max_col - 31 {
+                    c = max_col;
+                }
+            }
             if !used.insert((r, c)) {
                 continue;
             }
@@ -1723,6 +1754,24 @@ fn mutate_part(rng: &mut Rng, part: &[u8]) -> Vec<u8> {
         }
     }
     v
+}
+
+/// every formula cell also is a value cell (its cached result): the value range of the sheet has a non-empty cell at
+/// each position a formula is reported for — the two cursors of a reader walk the same rows and columns
+fn values_missing<R: Reader<Cursor<Vec<u8>>>>(wb: &mut R, sheet: &str, at: &[(u32, u32)]) -> String
+where
+    R::Error: std::fmt::Debug,
+{
+    match guarded(|| wb.worksheet_range(sheet)) {
+        Ok(Ok(rg)) => at
+            .iter()
+            .filter(|p| rg.get_value(**p).map_or(true, |v| *v == Data::Empty))
+            .map(|p| format!("[{},{}]", p.0, p.1))
+            .collect::<Vec<_>>()
+            .join(" "),
+        Ok(Err(e)) => format!("err:{e:?}"),
+        Err(p) => format!("panic:{p}"),
+    }
 }
 
 fn run_file_case(fc: &FileCase, drv: &mut Driver, rep: &mut Report) {
@@ -1951,6 +2000,12 @@ fn run_file_case(fc: &FileCase, drv: &mut Driver, rep: &mut Report) {
                     if imp != m {
                         rep.fail("impl_vs_model", "file_xls_worksheet_formula", &input, &imp, &m, &e);
                     }
+                    let at: Vec<(u32, u32)> = exp.keys().copied().collect();
+                    let miss = values_missing(&mut wb, name, &at);
+                    rep.count("file_xls_cached_values_at_formula_cells");
+                    if !miss.is_empty() {
+                        rep.fail("impl_vs_spec", "file_xls_formula_cell_without_value", &input, &miss, "", "a value at every formula cell");
+                    }
                 }
                 rep.count("file_xls_opened");
             }
@@ -2018,6 +2073,12 @@ fn run_file_case(fc: &FileCase, drv: &mut Driver, rep: &mut Report) {
                     }
                     if imp != m {
                         rep.fail("impl_vs_model", "file_xlsb_worksheet_formula", &input, &imp, &m, &e);
+                    }
+                    let at: Vec<(u32, u32)> = exp.keys().copied().collect();
+                    let miss = values_missing(&mut wb, name, &at);
+                    rep.count("file_xlsb_cached_values_at_formula_cells");
+                    if !miss.is_empty() {
+                        rep.fail("impl_vs_spec", "file_xlsb_formula_cell_without_value", &input, &miss, "", "a value at every formula cell");
                     }
                 }
                 rep.count("file_xlsb_opened");
